@@ -101,6 +101,7 @@ def vector_model(fn, s, nname):
             if m in ("push_back", "emplace_back"):
                 A.require(len(x.loops) == 1, "%s: push_back outside a single loop" % fn["qname"])
                 L = x.loops[0]
+                A.require(L.hi is not None and L.lo is not None, "%s: push_back in a loop whose trip count is not a counted range (while (v.size() < n) ...): sample count not judged" % fn["qname"])
                 cnt = sp.expand(L.hi - L.lo + (1 if L.cmp == "<=" else 0))
                 A.require(L.step == 1 and L.cmp in ("<", "<="), "%s: push_back loop is not counting up by one" % fn["qname"])
                 val = x.args[0] if x.args[0] is not None else _zero_literal(x.arg_nodes[0])
